@@ -21,6 +21,7 @@ type CheckDef struct {
 	Assumptions    []string
 	NoNativeReplay map[string]bool
 	Explanation    string
+	Gen            func() error
 }
 
 var checkDefs = map[string]*CheckDef{}
@@ -183,6 +184,90 @@ func init() {
 			"expansions of messages the property does not name (hr, ant_rx, ant_tx, exd_*, segment_point)",
 			"chained expansion (compressed speed -> speed -> enhanced_speed) is not required by the property and not asserted"},
 		Assumptions: commonAssumptions,
+	})
+}
+
+func init() {
+	reg(&CheckDef{
+		ID: "C04",
+		Jobs: func(tier string, meta map[string]int) []Job {
+			js := []Job{job("dyncrc16", "H04lin"), job("dyncrc16", "H04ker"), job("dyncrc16", "H04burst"), job("dyncrc16", "H14c"),
+				job("fit", "H04hdr", "size", 12), job("fit", "H04hdr", "size", 14)}
+			const fileLen = 14 + 34 + 2
+			step := 1
+			for q := 0; q < fileLen; q += step {
+				js = append(js, job("fit", "H04burst", "q", q))
+			}
+			maxD := 4
+			if tier == "thorough" {
+				maxD = 8
+			}
+			for D := 1; D <= maxD; D++ {
+				for q := 0; q < 12+D+2; q++ {
+					js = append(js, job("fit", "H04sym", "D", D, "q", q))
+				}
+			}
+			return js
+		},
+		MustReach: []string{"C04.lemma.linear", "C04.lemma.kernel", "C04.lemma.injective", "C04.lemma.burst", "C04.hdr.rule", "C04.hdr.method-vs-decodeheader", "C04.burst.decode-detects", "C04.sym.checkintegrity-detects"},
+		Bounds: map[string]interface{}{
+			"quick":    "lemmas on updateByte: none (all states, bytes, 16-bit patterns, 8 bit offsets); header verdicts: all 2^104 / 2^88 header byte values for sizes 14 and 12; direct bursts: every <=16-bit pattern at every bit position of one concrete 50-byte activity file (Decode and CheckIntegrity), and of every accepted frame with a 12-byte header and D <= 4 arbitrary data bytes (CheckIntegrity)",
+			"thorough": "as quick with D <= 8",
+		},
+		Outside: []string{"frames longer than the direct bound are covered by the lemma composition in DESIGN.md section 5/C04 (linearity + kernel + burst lemma), which is a paper argument over the machine-checked lemmas",
+			"Header.CheckIntegrity on Size values other than 12 and 14 (it panics on e.g. 13; not part of the property)",
+			"files produced by Encode pass CheckIntegrity: decided under C05"},
+		Assumptions: commonAssumptions,
+	})
+}
+
+func init() {
+	reg(&CheckDef{
+		ID:   "C03",
+		Meta: "fit.Hmeta",
+		Jobs: func(tier string, meta map[string]int) []Job {
+			js := []Job{job("fit", "H03a")}
+			for ti := 0; ti < 17; ti++ {
+				js = append(js, msgJobs(meta, "fit", "H03b", "ti", ti)...)
+			}
+			return js
+		},
+		MustReach: []string{"C03.filetype.accepted-iff-known", "C03.accessor.matching", "C03.accessor.others-error", "C03.add.appended-once", "C03.add.prefix-kept", "C03.add.single-slot-replaced", "C03.add.others-untouched", "C03.add.stored-equals-message", "C03.add.file-id", "C03.add.file-untouched"},
+		Bounds: map[string]interface{}{
+			"quick":    "file types: all 256 values; add step: 17 file types x every profile message number (from the tree), container pre-state with L in {0,1,2} messages in every slice (same L for all slices) and all single slots nil or all set, message = all-invalid value with every integer field arbitrary",
+			"thorough": "same",
+		},
+		Outside: []string{"interleavings of arbitrary length follow from the add step by induction (append at the end of an arbitrary prefix keeps stream order) — paper argument",
+			"pre-states whose slices have different lengths or mixed nil/non-nil single slots (the step touches one slot)",
+			"string/slice/time/coordinate fields of the routed message are left at their all-invalid value (not havocked)"},
+		Assumptions: append([]string{"M-reflect: reflect.ValueOf/Elem/Field/Kind/Type/Interface/Set/Index/Len/IsNil/New/MakeSlice/Addr modelled with documented panics (DESIGN.md Appendix A)"}, commonAssumptions...),
+	})
+}
+
+func init() {
+	reg(&CheckDef{
+		ID:   "C20",
+		Meta: "fit.H20meta",
+		Gen: func() error {
+			_, _, err := genC20()
+			return err
+		},
+		Jobs: func(tier string, meta map[string]int) []Job {
+			var js []Job
+			for ti := 0; ti < meta["ntypes"]; ti++ {
+				js = append(js, job("fit", "H20", "ti", ti))
+			}
+			return js
+		},
+		MustReach: []string{"C20.constant-prints-its-name", "C20.other-values-print-type-and-number", "constant", "other"},
+		Bounds: map[string]interface{}{
+			"quick":    "every generated FIT type whose String method lives in types_string.go (list and constants read from go/types of the current tree), receiver symbolic over its full width (all 2^8, 2^16 or 2^32 values)",
+			"thorough": "same",
+		},
+		Outside: []string{"second sentence of the property (the checked-in tables are what the repository's stringer generates): needs the generator run on the type definitions, not a bounded computation",
+			"the manually written Bool type (types_man.go) is not a generated type",
+			"the decimal rendering inside Type(n) is strconv.FormatInt, kept uninterpreted: the assertion is that the method calls it on the receiver's value"},
+		Assumptions: append([]string{"strconv.FormatInt is an uninterpreted function of its argument"}, commonAssumptions...),
 	})
 }
 
